@@ -129,6 +129,15 @@ def oracle(line):
         if r is None: return None
         if t[1] == "d" and len(tag) == 0: return "rc=%d" % PS_ARG_FAIL
         return "ok " + hx(r[0]) if r[1][:len(tag)] == tag else "authfail"
+    if op == "gcmr":                                                        # second message of a reused context = a fresh encryption
+        r = o_gcm(un(t[1]), un(t[5]), un(t[6]), un(t[7]), False)
+        return None if r is None else hx(r[0]) + " " + hx(r[1])
+    if op == "gcmz":                                                        # zero ciphertext, no AAD: GHASH stays 0 until the length block
+        key, iv, n = un(t[1]), un(t[2]), int(t[3])
+        ks = aes_ecb(key, bytes(16) + iv + b"\x00\x00\x00\x01")
+        if ks is None: return None
+        s_ = gf_mul((8 * n) & ((1 << 64) - 1), int.from_bytes(ks[:16], "big"))
+        return hx(xor(s_.to_bytes(16, "big"), ks[16:]))
     if op == "chp":
         key, nonce, aad, data = un(t[2]), un(t[3]), un(t[4]), un(t[5])
         if t[1] == "e":
@@ -157,6 +166,7 @@ def cost(line):
         return 2 * nb * max(int(t[3]), 1) * hmac_cost("sha1", L(t[1]), 20 + L(t[2]))
     if op == "cbc": return 2 * (L(t[4]) // 16 + 1)
     if op == "gcm": return 6 * ((L(t[5]) + 15) // 16 + (L(t[4]) + 15) // 16 + 4)      # AES block + GHASH multiplication
+    if op == "gcmr": return 6 * ((L(t[3]) + L(t[7]) + 30) // 16 + (L(t[6]) + 15) // 16 + 8)
     if op == "chp": return 4 * ((L(t[5]) + 63) // 64 + 2) + (L(t[5]) + L(t[4])) // 8
     return 1
 
@@ -354,6 +364,29 @@ def gen_gcm(ck, r, oracle_gcm):
                     out.append("gcm d %s %s %s %s %s - 0 0" % (hx(key), hx(iv), hx(flip(aad, b)), hx(ct), hx(tag))); ck.count("gcm:bitflip-aad")
     return out
 
+def gen_long_stream(ck, r):
+    """messages long enough for the block counter to carry out of its low byte (GCM: block 254, ChaCha20: block 255)"""
+    out = []
+    key, iv, aad, pt = pat(r, 16), pat(r, 12), pat(r, 5), pat(r, 4112)
+    out.append("gcm e %s %s %s %s 16 %s 0 0" % (hx(key), hx(iv), hx(aad), hx(pt), spl([4000, 100]))); ck.count("gcm:counter-carry")
+    key, nonce, pt = pat(r, 32), pat(r, 12), pat(r, 16448)
+    out.append("chp e %s %s %s %s 0 1" % (hx(key), hx(nonce), hx(aad), hx(pt))); ck.count("chacha:counter-carry")
+    return out
+
+def gen_gcm_reuse(ck, r):
+    """one context, two messages: the first ends inside a counter block and/or with a tag shorter than 16 bytes"""
+    out = []
+    key = pat(r, 16)
+    for l1 in (0, 5, 16, 21):
+        for tl1 in (16, 12, 8, 1, 0):
+            for (al2, l2) in ((0, 20), (13, 3)):
+                out.append("gcmr %s %s %s %d %s %s %s" % (hx(key), hx(pat(r, 12)), hx(pat(r, l1)), tl1, hx(pat(r, 12)), hx(pat(r, al2)), hx(pat(r, l2))))
+                ck.count("gcm:context-reuse:first-tag%s16" % ("=" if tl1 == 16 else "<"))
+    return out
+
+# library only (the extracted model cannot walk 2^28 bytes): total lengths around 2^31 bits, fed as zero ciphertext
+BIG = [("gcmz %s %s 268435456 1048576", "2^28 bytes in 1 MiB calls"), ("gcmz %s %s 268435472 268435472", "2^28+16 bytes in one call")]
+
 def gen_chp(ck, r):
     thorough = ck.tier == "thorough"
     out = []
@@ -428,11 +461,13 @@ def classify(line):
     L = lambda h: 0 if h == "-" else len(h) // 2
     if op in ("hms", "hmg") and L(t[2]) > BLOCK[t[1]]: return "hmac-stream-long-key:" + t[1]
     if op == "pb2" and L(t[1]) > 64: return "pbkdf2-long-password"
+    if op == "gcmr": return "gcm-context-reuse:first-tag-%s" % ("16" if t[4] == "16" else "short")
+    if op == "gcmz": return "gcm-length-counter:2^31-bits"
     if op in ("gcm", "chp") and t[1] != "e": return op + ":decrypt"
     return op + ":" + (t[1] if op not in ("pb2",) else "sha1")
 
 GROUPS = [("digests (Init/Update*/Final)", ("dg",)), ("HMAC streaming / one-shot / generic", ("hms", "hm1", "hmg")),
-          ("HKDF extract / expand", ("hkx", "hke")), ("PBKDF2", ("pb2",)), ("AES-CBC", ("cbc",)), ("AES-GCM", ("gcm",)),
+          ("HKDF extract / expand", ("hkx", "hke")), ("PBKDF2", ("pb2",)), ("AES-CBC", ("cbc",)), ("AES-GCM", ("gcm", "gcmr")),
           ("ChaCha20-Poly1305", ("chp",))]
 
 def run(ck):
@@ -464,7 +499,7 @@ def run(ck):
         rc, out, _ = ck.run_lines(h, ["gcm e %s %s %s %s 16 - 0 0" % (hx(key), hx(iv), hx(aad), hx(pt))])   # no openssl: genuine ct/tag from the library itself
         t = out[0].split() if out else []
         return (un(t[0]), un(t[1])) if len(t) == 2 else None
-    gens += [gen_gcm(ck, r, gcm_enc), gen_chp(ck, r)]
+    gens += [gen_gcm(ck, r, gcm_enc), gen_gcm_reuse(ck, r), gen_chp(ck, r), gen_long_stream(ck, r)]
     seen = set(cases)
     for g in gens:
         for c in g:
@@ -472,6 +507,14 @@ def run(ck):
     if only:
         cases = [c for c in cases if c.split()[0] in only.split(",")]
     t0 = time.time()
+    big = []
+    if OPENSSL and not only and os.environ.get("VERIF_C12_NOBIG") != "1":
+        zkey, ziv = hx(pat(r, 16)), hx(pat(r, 12))
+        big = [(l % (zkey, ziv), what, []) for l, what in BIG]
+        def bigrun(item):
+            rc_, o_, _ = ck.run_lines(h, [item[0]], timeout=900); item[2].append(o_[0] if o_ else "NOOUTPUT")
+        bigth = [threading.Thread(target=bigrun, args=(b,)) for b in big]
+        for t_ in bigth: t_.start()
     rc, impl, err = ck.run_lines(h, cases)
     t1 = time.time()
     model, nkeys, load = run_model(ck, drv, cases, env=dict(os.environ, VERIF_C12_NOSPEC="1") if ck.tier == "thorough" and os.environ.get("VERIF_C12_SPEC_TOO") != "1" else None)
@@ -502,6 +545,15 @@ def run(ck):
             ck.spec_violation("%s:%s" % (cls, kind),
                               "%s: the library returns %s where the standard gives %s" % (cls, impl[i][:80], want[:80]),
                               {"harness": "h_crypto", "case": c, "observed": impl[i], "expected_by_spec": want, "model": model[i]})
+    if big:
+        for t_ in bigth: t_.join()
+        for line, what, got in big:
+            want = oracle(line); nspec += 1; ck.count("gcm:length-counter-2^31-bits"); ck.cov["evaluations"] += 1
+            ck.sample({"library_only": line, "impl": got[0], "spec": want})
+            if got[0].strip() != want:
+                ck.spec_violation("gcm-length-counter:2^31-bits:wrong-output",
+                                  "AES-GCM tag over %s of ciphertext: the library returns %s where SP 800-38D gives %s" % (what, got[0], want),
+                                  {"harness": "h_crypto", "case": line, "observed": got[0], "expected_by_spec": want})
     ck.cov["spec_oracle_cases"] = nspec
     ck.cov["spec_oracle_skipped_no_independent_oracle"] = nskip
     ck.cov["openssl_cli"] = bool(OPENSSL)
